@@ -99,10 +99,20 @@ def traceback_line(feedback):
         return 0
 
 
+_FRESH = [0]
+
+
 def fresh():
     from pedal.core.commands import clear_report, contextualize_report
     clear_report()
     contextualize_report("x = 0\n")
+    _FRESH[0] += 1
+    import os as _os
+    if _os.environ.get("VERIF_FORCE_HTML") or _FRESH[0] % 2 == 0:
+        # every other offer is judged with the HTML formatter on the report (the web environments' wording)
+        from pedal.core.report import MAIN_REPORT
+        from pedal.core.formatting import HtmlFormatter
+        MAIN_REPORT.set_formatter(HtmlFormatter(MAIN_REPORT))
 
 
 def hist_chunk(cases, extra):
